@@ -2,24 +2,26 @@
 (* The contract layer: for every call of the single-arena families, the set of
    admitted outcomes, the named deviations (known findings) and the judge that
    attributes a non-conforming observation to the properties it violates. *)
-EXTENDS StrCopy, MemOps, StrXform
+EXTENDS StrCopy, MemOps, StrXform, StrQuery
 
 Outcomes(e) ==
   CASE e.fn \in StrCopyFns \ FldFns -> StrCopyOutcomes(e)
     [] e.fn \in MemOpsFns -> MemOpsOutcomes(e)
     [] e.fn \in StrXformFns -> StrXformOutcomes(e)
+    [] e.fn \in StrQueryFns -> StrQueryOutcomes(e)
     [] OTHER -> {}
 
 Deviations(e) ==
   CASE e.fn \in StrCopyFns \ FldFns -> StrCopyDeviations(e)
     [] e.fn \in MemOpsFns -> MemOpsDeviations(e)
     [] e.fn \in StrXformFns -> StrXformDeviations(e)
+    [] e.fn \in StrQueryFns -> StrQueryDeviations(e)
     [] OTHER -> {}
 
-Known(e) == e.fn \in (StrCopyFns \ FldFns) \cup MemOpsFns \cup StrXformFns
+Known(e) == e.fn \in (StrCopyFns \ FldFns) \cup MemOpsFns \cup StrXformFns \cup StrQueryFns
 
 (* functional property of the family the function belongs to *)
-Func(fn) == "C06"
+Func(fn) == IF fn \in StrQueryFns THEN "C10" ELSE "C06"
 
 ProducesString(fn) == fn \in (StrCopyFns \ {"strcpyfld_s", "strcpyfldin_s"}) \cup {"strnterminate_s"}
 InPlaceString(fn) == fn \in StrFillFns \cup (StrXformFns \ {"strnterminate_s"})      \* transforms of an existing string: the terminator must survive
